@@ -467,4 +467,126 @@ theorem planHeralds_le_one (kinds : List String) : ∀ v ∈ planHeralds kinds, 
 
 end field3
 
+/-! ### the modes the placed gates sit on are the ones the driver reports (`planModes`) -/
+
+section field4
+variable [Field R] [CharZero R]
+
+theorem ofFn_four (f : Fin 4 → ℕ) : List.ofFn f = [f 0, f 1, f 2, f 3] := by
+  simp [List.ofFn_succ]
+
+theorem ofFn_two (f : Fin 2 → ℕ) : List.ofFn f = [f 0, f 1] := by
+  simp [List.ofFn_succ]
+
+/-- the support of one placed gate -/
+theorem head_modes (n : ℕ) (hv : List ℕ) (oneQ : Gate → Matrix (Fin 2) (Fin 2) R) (r h c2 s2 : R) (g : Gate)
+    (l : String) (j j' : ℕ) (cg : ConvGate (convLayout n hv) R) (hd : Head n hv oneQ g l j cg j') :
+    (cg.step r h c2 s2).S =
+      (if g.qubits.length == 1 then [2 * g.qubits.getD 0 0, 2 * g.qubits.getD 0 0 + 1]
+       else if twoQubitKind true l == "PERM" then
+        [2 * g.qubits.getD 0 0, 2 * g.qubits.getD 0 0 + 1, 2 * g.qubits.getD 1 0, 2 * g.qubits.getD 1 0 + 1]
+       else gateModes n (g.qubits.getD 0 0) (g.qubits.getD 1 0) j) ∧
+      j' = (if g.qubits.length == 1 then j else if twoQubitKind true l == "PERM" then j else j + 1) := by
+  cases hd with
+  | oneQ q hq hg =>
+    refine ⟨?_, by simp [hg]⟩
+    simp only [ConvGate.step, placedStep, hg]
+    exact ofFn_two _
+  | swap a b hab hg hk =>
+    refine ⟨?_, by simp [hg, hk]⟩
+    simp only [ConvGate.step, swapStepOf, placedStep, hg, hk]
+    exact ofFn_four _
+  | hcz a b hs hg hk =>
+    refine ⟨?_, by simp [hg, hk]⟩
+    simp only [ConvGate.step, placedStep, hg, hk]
+    refine (catPlacement_support n hv a b j 1 hs).trans ?_
+    simp
+  | hcnot a b hs hg hk =>
+    refine ⟨?_, by simp [hg, hk]⟩
+    simp only [ConvGate.step, placedStep, hg, hk]
+    refine (catPlacement_support n hv a b j 1 hs).trans ?_
+    simp
+  | ppcnot a b hs hg hk =>
+    refine ⟨?_, by simp [hg, hk]⟩
+    simp only [ConvGate.step, placedStep, hg, hk]
+    refine (catPlacement_support n hv a b j 0 hs).trans ?_
+    simp
+
+/-- **the modes of the placed gates are `planModes`** — the list the driver's `modes` op returns and the harness
+compares with the positions of the real processor's components -/
+theorem convGatesM_modes (n : ℕ) (hv : List ℕ) (oneQ : Gate → Matrix (Fin 2) (Fin 2) R) (r h c2 s2 : R) :
+    ∀ (gs : List Gate) (ls : List String) (j : ℕ) (cgs : List (ConvGate (convLayout n hv) R)),
+      convGatesM n hv oneQ gs ls j = some cgs →
+      (convSteps r h c2 s2 cgs).map (·.S) = planModes n gs (ls.map (twoQubitKind true)) j
+  | [], ls, j, cgs, hc => by
+    rw [convGatesM] at hc
+    cases hc
+    cases ls <;> rfl
+  | g :: gs, [], j, cgs, hc => by
+    rw [convGatesM] at hc; cases hc
+  | g :: gs, l :: ls, j, cgs, hc => by
+    obtain ⟨cg, rest, j', rfl, hd, hrest⟩ := convGatesM_cons n hv oneQ g gs l ls j cgs hc
+    have ih := convGatesM_modes n hv oneQ r h c2 s2 gs ls j' rest hrest
+    obtain ⟨hS, hj'⟩ := head_modes n hv oneQ r h c2 s2 g l j j' cg hd
+    simp only [convSteps, List.map_cons, planModes] at ih ⊢
+    rw [ih, hS, hj']
+    by_cases h1 : (g.qubits.length == 1) = true
+    · simp only [h1, if_true]
+    · by_cases h2 : (twoQubitKind true l == "PERM") = true
+      · simp only [h1, h2, if_true, if_false, Bool.false_eq_true]
+      · simp only [h1, h2, if_false, Bool.false_eq_true]
+
+end field4
+
+section field5
+variable [Field R] [CharZero R]
+
+/-- the kind `planKinds` lists for a gate that was placed -/
+theorem head_kinds (n : ℕ) (hv : List ℕ) (oneQ : Gate → Matrix (Fin 2) (Fin 2) R) (g : Gate) (gs : List Gate)
+    (l : String) (ls : List String) (j j' : ℕ) (cg : ConvGate (convLayout n hv) R)
+    (hd : Head n hv oneQ g l j cg j') :
+    planKinds true (g :: gs) (l :: ls) =
+      (if g.qubits.length == 1 then "1q" else twoQubitKind true l) :: planKinds true gs ls := by
+  cases hd with
+  | oneQ q hq hg => simp [planKinds, hg]
+  | swap a b hab hg hk =>
+    have : ("PERM" : String).startsWith "rejected" = false := by decide +kernel
+    simp [planKinds, hg, hk, this]
+  | hcz a b hs hg hk =>
+    have : ("Heralded CZ" : String).startsWith "rejected" = false := by decide +kernel
+    simp [planKinds, hg, hk, this]
+  | hcnot a b hs hg hk =>
+    have : ("Heralded CNOT" : String).startsWith "rejected" = false := by decide +kernel
+    simp [planKinds, hg, hk, this]
+  | ppcnot a b hs hg hk =>
+    have : ("PostProcessed CNOT" : String).startsWith "rejected" = false := by decide +kernel
+    simp [planKinds, hg, hk, this]
+
+/-- **the modes of the placed gates are exactly what the driver's `modes` request returns**
+(`planModes n gs (planKinds true gs labels) 0`), which the harness compares with the real processor -/
+theorem convGatesM_modes_planKinds (n : ℕ) (hv : List ℕ) (oneQ : Gate → Matrix (Fin 2) (Fin 2) R) (r h c2 s2 : R) :
+    ∀ (gs : List Gate) (ls : List String) (j : ℕ) (cgs : List (ConvGate (convLayout n hv) R)),
+      convGatesM n hv oneQ gs ls j = some cgs →
+      (convSteps r h c2 s2 cgs).map (·.S) = planModes n gs (planKinds true gs ls) j
+  | [], ls, j, cgs, hc => by
+    rw [convGatesM] at hc
+    cases hc
+    cases ls <;> rfl
+  | g :: gs, [], j, cgs, hc => by
+    rw [convGatesM] at hc; cases hc
+  | g :: gs, l :: ls, j, cgs, hc => by
+    obtain ⟨cg, rest, j', rfl, hd, hrest⟩ := convGatesM_cons n hv oneQ g gs l ls j cgs hc
+    have ih := convGatesM_modes_planKinds n hv oneQ r h c2 s2 gs ls j' rest hrest
+    obtain ⟨hS, hj'⟩ := head_modes n hv oneQ r h c2 s2 g l j j' cg hd
+    rw [head_kinds n hv oneQ g gs l ls j j' cg hd]
+    simp only [convSteps, List.map_cons, planModes] at ih ⊢
+    rw [ih, hS, hj']
+    by_cases h1 : (g.qubits.length == 1) = true
+    · simp only [h1, if_true]
+    · by_cases h2 : (twoQubitKind true l == "PERM") = true
+      · simp only [h1, h2, if_true, if_false, Bool.false_eq_true]
+      · simp only [h1, h2, if_false, Bool.false_eq_true]
+
+end field5
+
 end PM.C20
